@@ -649,10 +649,24 @@ fn short_name(rng: &mut Rng, i: usize) -> Vec<u8> {
     v
 }
 
-fn tiny_mesh(rng: &mut Rng, start_index: usize) -> GMesh {
+fn tiny_mesh(rng: &mut Rng, start_index: usize, canonical: bool) -> GMesh {
     let vcount = rng.below(3) as usize;
     let nidx = rng.below(4) as usize;
-    let data = rng.bytes(12 * vcount);
+    let decl = vec![GElem { stream: 0, offset: 0, ty: 2, usage: 0, uidx: 0 }];
+    let data = if canonical { canonical_streams(rng, &decl, &[12], vcount)[0].1.clone() } else { rng.bytes(12 * vcount) };
+    if canonical {
+        // C07: a mesh starts at its first sub-mesh's offset
+        return GMesh {
+            vcount: vcount as u16,
+            material: rng.below(4) as u16,
+            bonetable: rng.below(3) as u16,
+            index_pad: (8 - (start_index + nidx) % 8) % 8,
+            decl,
+            streams: vec![(12, data)],
+            indices: (0..nidx).map(|_| if vcount == 0 { 0 } else { rng.below(vcount as u64) as u16 }).collect(),
+            subs: vec![GSub { off: start_index as u32, count: nidx as u32, mask: 0, bstart: 0, bcount: 0 }],
+        };
+    }
     GMesh {
         vcount: vcount as u16,
         material: rng.below(4) as u16,
@@ -688,12 +702,21 @@ fn push_good_shape(rng: &mut Rng, m: &mut GModel, nshm: usize, nval: usize) {
 
 /// `fixed`: use exactly this count for the widened table (quick tier sweeps the boundary values)
 pub fn gen_wide(rng: &mut Rng, kind: usize, fixed: Option<usize>) -> GModel {
+    gen_wide_opts(rng, kind, fixed, false)
+}
+
+/// kinds that exist for C07's canonical version-5 models (no version-6 table, no terrain shadow)
+pub const WIDE_KINDS_CANONICAL: &[usize] = &[1, 2, 3, 4, 5, 6, 7, 8, 9, 10, 11, 12, 13];
+
+/// `canonical`: a model inside C07's quantifier (version 5, writable pairs, canonical streams,
+/// NaN-free float tables, no terrain-shadow tables, consistent starts)
+pub fn gen_wide_opts(rng: &mut Rng, kind: usize, fixed: Option<usize>, canonical: bool) -> GModel {
     // every supported pair except (BlendWeights, Byte4), the class of the recorded finding
     const WIDE_COMBOS: &[(u8, u8, u8)] = &[
         (0, 3, 16), (0, 14, 8), (0, 2, 12), (1, 8, 4), (1, 17, 8), (2, 5, 4), (2, 17, 8), (3, 14, 8), (3, 2, 12),
         (4, 8, 4), (4, 14, 8), (4, 3, 16), (4, 13, 4), (6, 8, 4), (5, 8, 0), (7, 8, 4),
     ];
-    let o = GenOpts { max_meshes: 2, max_vertices: 40, combos: WIDE_COMBOS, v5_only: false, canonical: false };
+    let o = GenOpts { max_meshes: 2, max_vertices: 40, combos: if canonical { WCOMBOS } else { WIDE_COMBOS }, v5_only: canonical, canonical };
     let mut m = loop {
         let m = gen_model(rng, &o);
         let first = &m.lods[0].meshes[0];
@@ -746,7 +769,7 @@ pub fn gen_wide(rng: &mut Rng, kind: usize, fixed: Option<usize>) -> GModel {
         }
         1 => {
             // >= 255 bone tables, either version
-            let v6 = rng.chance(1, 2);
+            let v6 = !canonical && rng.chance(1, 2);
             set_version(&mut m, rng, v6);
             let n = wide_count(rng, fixed);
             if v6 {
@@ -758,7 +781,7 @@ pub fn gen_wide(rng: &mut Rng, kind: usize, fixed: Option<usize>) -> GModel {
         2 => m.attrs = (0..wide_count(rng, fixed)).map(|i| short_name(rng, i)).collect(),
         3 => {
             m.bones = (0..wide_count(rng, fixed)).map(|i| short_name(rng, i)).collect();
-            m.bbb = (0..m.bones.len()).map(|_| rng.bytes(32)).collect();
+            m.bbb = (0..m.bones.len()).map(|_| fill_stream(rng, 32, true)).collect();
         }
         4 => m.mats = (0..wide_count(rng, fixed)).map(|i| short_name(rng, i)).collect(),
         5 => {
@@ -774,20 +797,22 @@ pub fn gen_wide(rng: &mut Rng, kind: usize, fixed: Option<usize>) -> GModel {
         7 => { let n = wide_count(rng, fixed); push_good_shape(rng, &mut m, 1, n) }
         8 => {
             // element ids / terrain shadow tables (the terrain shadow mesh count is a u8: 255 is its maximum)
-            let which = rng.below(3);
+            let which = if canonical { 0 } else { rng.below(3) };
             if which == 0 || rng.chance(1, 4) {
-                m.eids = (0..wide_count(rng, fixed)).map(|_| rng.bytes(32)).collect();
+                m.eids = (0..wide_count(rng, fixed)).map(|_| fill_stream(rng, 32, true)).collect();
             }
-            if which == 1 || rng.chance(1, 4) {
+            if canonical {
+                // no terrain-shadow tables in C07's quantifier
+            } else if which == 1 || rng.chance(1, 4) {
                 m.tss = (0..wide_count(rng, fixed)).map(|_| rng.bytes(12)).collect();
             }
-            if which == 2 || rng.chance(1, 4) {
+            if !canonical && (which == 2 || rng.chance(1, 4)) {
                 m.tsm = (0..*rng.pick(&[127usize, 128, 254, 255])).map(|_| rng.bytes(20)).collect();
             }
         }
         9 => {
             // sub-mesh bone map: byte size is a u32 (version 5) / u16 (version 6)
-            let v6 = rng.chance(1, 2);
+            let v6 = !canonical && rng.chance(1, 2);
             set_version(&mut m, rng, v6);
             let n = match fixed {
                 Some(n) => n,
@@ -819,7 +844,7 @@ pub fn gen_wide(rng: &mut Rng, kind: usize, fixed: Option<usize>) -> GModel {
             let l = rng.below(m.lodn as u64) as usize;
             let mut start: usize = m.lods[l].meshes.iter().map(|x| x.indices.len() + x.index_pad).sum();
             while m.lods.iter().map(|x| x.meshes.len()).sum::<usize>() < n {
-                let mesh = tiny_mesh(rng, start);
+                let mesh = tiny_mesh(rng, start, canonical);
                 start += mesh.indices.len() + mesh.index_pad;
                 m.lods[l].meshes.push(mesh);
             }
